@@ -1,3 +1,4 @@
+import RsyncModel.PureTie
 import RsyncModel.Delta.Honest
 import RsyncModel.Delta.GoThm
 /-! # C16 — unchanged data is not re-sent: matches are found at every byte offset -/
@@ -45,5 +46,36 @@ theorem go_loop_is_greedy (Hs : Bytes → Bytes) (h : Head) (sums : List Delta.S
 makes matching work at offsets other than 0 and other than right after a match). -/
 theorem rolling_invariant (c : Ctx) (hbl : c.bl < 4294967296) (x : UInt8) (xs : Bytes) :
     rollGo c (wsum (c.win (x :: xs))) x xs = wsum (c.win xs) := rollGo_wsum c hbl x xs
+
+
+/-! ### Tie to the source (regenerated translation `Gen.Pure`, see `tools/extract/pure.go`) -/
+
+/-- **The rolling update the source performs is exact.** `Gen.Pure.rollUpdate` is the translation of
+the statements `s1 -= SignExtend(update[0]) … s2 = uint32(uint16(s2))` of `hashSearch`, regenerated
+from /repo on every run: from the weak sum of the window `x :: w` (any length, any position in the
+file) it produces the weak sum of the window shifted by one byte, `w ++ [y]` — so matches are found
+at every byte offset, not only on block boundaries. No index is out of range. -/
+theorem source_rolling_update (x y : UInt8) (w tl : Bytes) :
+    Gen.Pure.rollUpdate (wsum (x :: w)).1 (wsum (x :: w)).2 ((w.length + 1 : Nat) : Int) (x :: (w ++ y :: tl)) true
+      = .ok ((wsum (w ++ [y])).1, (wsum (w ++ [y])).2, ((w.length + 1 : Nat) : Int)) :=
+  PureTie.rollUpdate_wsum x y w tl
+
+/-- at the end of the file (no further byte) the source's update is the weak sum of the shrunk window -/
+theorem source_rolling_update_last (x : UInt8) (w : Bytes) :
+    Gen.Pure.rollUpdate (wsum (x :: w)).1 (wsum (x :: w)).2 ((w.length + 1 : Nat) : Int) (x :: w) false
+      = .ok ((wsum w).1, (wsum w).2, (w.length : Int)) :=
+  PureTie.rollUpdate_wsum_last x w
+
+/-- the source's `Checksum1` (4-unrolled loop, regenerated) yields, through the halves `readChunk`
+takes, exactly the weak sum the rolling update maintains: generator and sender agree on it -/
+theorem source_checksum1_is_weak_sum (buf : Bytes) :
+    ∃ v, Gen.Pure.Checksum1 buf = .ok v ∧ Gen.Pure.sumHalves v 0 0 = wsum buf := by
+  refine ⟨checksum1 buf, PureTie.checksum1_tied buf, ?_⟩
+  rw [PureTie.sumHalves_tied]; exact checksum1_halves buf
+
+/-- the packed sum compared with `Sum1` and the 16-bit tag are the model's -/
+theorem source_pack_and_tag (s1 s2 x sum : UInt32) :
+    Gen.Pure.packSum s1 s2 x = pack (s1, s2) ∧ Gen.Pure.Tag sum = tag sum :=
+  ⟨PureTie.packSum_tied s1 s2 x, PureTie.tag_tied sum⟩
 
 end C16
